@@ -558,6 +558,18 @@ func (run *Run) finish() int {
 			if confirmBudget[r.Key] < 3 {
 				confirmBudget[r.Key]++
 				r2 := run.confirm(c)
+				if r2.Status != Violated && p.ScheduleDependent && !strings.Contains(r.Key, "deadlock") && !strings.Contains(r.Key, "livelock") && !strings.Contains(r.Key, "stall") && !strings.HasSuffix(r.Key, ":hang") {
+					for i := 0; i < 4 && r2.Status != Violated; i++ {
+						r2 = run.confirm(c)
+					}
+					if r2.Status != Violated {
+						// the witness (history, final state) of the original run stands on its own
+						r.Msg += " (schedule dependent: 5 isolated replays did not show it again; the recorded history is the witness)"
+						run.Flaky++
+						unlisted = append(unlisted, viol{c, r})
+						continue
+					}
+				}
 				if r2.Status != Violated {
 					run.Flaky++
 					inconclusive = append(inconclusive, fmt.Sprintf("case=%d reason=disagreement did not replay (%s)", id, r.Msg))
